@@ -38,6 +38,7 @@ RULE += (" Aliases also occur without group-by (normalisation only).")
 RULE += (" Rule names also begin with the letters of an operator keyword (notable, not_r, android, or_x, order).")
 RULE += (" Correlation rules carry up to two aliases, also named like fields the pipeline renames, in both key orders.")
 RULE += (" A third of the backends quotes every field name: group-by, fields list, alias targets and the condition field must then be quoted alike.")
+RULE += (" Alias maps may name a referenced rule by its other identifier (id where the rule list says the name and vice versa).")
 ASSUMPTIONS = [
     "solo queries of referenced rules are computed by the same backend class on fresh objects (isolation, not semantics)",
     "the unit lengths s/m/h/d/w/M/y = 1/60/3600/86400/604800/2629746/31556952 seconds",
@@ -165,7 +166,7 @@ def check_case(case: dict) -> Outcome:
         res = []
         for alias, m in aliases.items():
             for ref, fld in m.items():
-                if ref == r:
+                if ref == r or by_key.get(ref) is by_key[r]:   # an alias names the rule, by either of its identifiers
                     res.append((alias, qf(map_field(fld, pspec))))
         return res
 
@@ -359,6 +360,13 @@ def cases(draw):
                     c["aliases"] = dict(reversed(list(c["aliases"].items())))
     if "group-by" not in c and draw(st.integers(0, 2)) == 0:  # aliases without grouping: normalisation only
         c["aliases"] = {"al": {r: draw(st.sampled_from(["user", "account", "x"])) for r in refs}}
+    if "aliases" in c and draw(st.integers(0, 2)) == 0:
+        # alias maps that name a rule by its other identifier (rule list says the name, alias map the id, or the reverse)
+        other = {}
+        for d in rules:
+            if "name" in d and "id" in d:
+                other[d["name"]], other[d["id"]] = d["id"], d["name"]
+        c["aliases"] = {a: {other.get(r, r): f for r, f in m.items()} for a, m in c["aliases"].items()}
     if draw(st.booleans()):
         c["generate"] = draw(st.booleans())
     op = draw(st.sampled_from(list(OPS)))
